@@ -19,7 +19,7 @@ From Coq Require Import List NArith Bool Arith.
 From SV Require Import Bytes Lexer Tables ArgCheck ArgSpec Machine Printer GenTables.
 Import ListNotations.
 Local Open Scope nat_scope.
-From SV Require Import ArgCheckFacts GateFacts RegisterFacts.
+From SV Require Import ArgCheckFacts GateFacts RegisterFacts PositionFacts TotalFacts CompleteFacts.
 
 (* generic in the definition: complete / incomplete / rejected exactly as [legal] says, values under the defined names *)
 Theorem C20_argcheck_generic :
@@ -85,3 +85,22 @@ Theorem C20_register_wf :
   wf_tables T = true -> def_wf d = true -> wf_tables (register key d T) = true.
 Proof. exact RegisterFacts.register_wf. Qed.
 Print Assumptions C20_register_wf.
+
+(* end to end for a registered action (instantiate T := register key d T0, lookup by C20_no_extension): every use the definition allows is accepted and recorded under the defined names *)
+Theorem C20_registered_action_parsed :
+  forall (T : tables) (text name : bytes) (d : cmddef) (args : list argument)
+    (am em : list (bytes * aval)),
+  twf_tables T = true ->
+  snd (lex text) = None ->
+  map strip_pos (fst (lex text)) =
+  mk TIdentifier name :: flat_map arg_toks args ++ [mk TSemicolon [59%N]] ->
+  get_command_instance T [] name = inl d ->
+  d_type d = CAction ->
+  d_complete d = HNone ->
+  d_must_follow d = None ->
+  wf_def d = true ->
+  fixed_arity d = true ->
+  Forall arg_ok args ->
+  legal d [] args = LComplete am em -> parse T text = Accept [Node d am em [] []].
+Proof. exact CompleteFacts.parse_single_action. Qed.
+Print Assumptions C20_registered_action_parsed.
